@@ -552,6 +552,30 @@ func runOnce(sh *shape, prog [][]op, prefix []int, choose func(enabled []int) in
 	return res
 }
 
+// inspect returns the object a returned value was made for and whether it is a nil pointer / nil interface
+func inspect(ptr any) (e int, isNil bool) {
+	switch p := ptr.(type) {
+	case nil:
+		return -1, true
+	case *thingA:
+		if p == nil {
+			return -1, true
+		}
+		return p.e, false
+	case *thingB:
+		if p == nil {
+			return -1, true
+		}
+		return p.e, false
+	case *thingC:
+		if p == nil {
+			return -1, true
+		}
+		return p.e, false
+	}
+	return -2, false
+}
+
 // ---------------------------------------------------------------- observations
 
 func formatObs(res *runResult) string {
@@ -560,7 +584,7 @@ func formatObs(res *runResult) string {
 		if o.err != "" {
 			return o.err
 		}
-		if o.ptr == nil {
+		if _, isNil := inspect(o.ptr); isNil {
 			return "v0"
 		}
 		if s, ok := names[o.ptr]; ok {
@@ -621,6 +645,11 @@ func oracle(sh *shape, prog [][]op, res *runResult) (sig, what string) {
 		}
 		e := sh.chainEnd(r)
 		k := [2]int{e, t}
+		// what the call returns alone: a value its own decode function made for object e
+		ve, isNil := inspect(o.ptr)
+		if isNil != sh.nilv[k] || !isNil && ve != e {
+			return fmt.Sprintf("own-value: a call for reference %d, type %d returned no error and a value that no decode function of that type made for object %d (nil=%v, made for object %d)", r, t, e, isNil, ve)
+		}
 		if !have[k] {
 			have[k] = true
 			first[k] = o.ptr
@@ -646,6 +675,9 @@ func oracle(sh *shape, prog [][]op, res *runResult) (sig, what string) {
 			if ev.ex {
 				runs[[2]int{ev.r, ev.t}]++
 			}
+		}
+		if strings.HasPrefix(m, "own-value: ") {
+			return "own-value", m[len("own-value: "):]
 		}
 		if m != "" {
 			return "agree", m
@@ -823,7 +855,8 @@ func main() {
 	for _, p := range three {
 		x.sampled(p, budget)
 	}
-	e.Finish("every schedule of every listed program with <= 2 goroutines on the real Decode/DecodeExclusive/StoreOrLoadPair (stateless DFS over the verif scheduling points); programs with 3 goroutines: a fixed budget of random schedules (sampling, not exhaustive); oracle: pointer identity per (object,type), one exclusive decoder run, no deadlock/panic/unlocked critical section, later sequential Decode returns the same pointer; every schedule replayed in the extracted Coq model",
+	pool := poolPhase(e, 3)
+	e.Finish("every schedule of every listed program with <= 2 goroutines on the real Decode/DecodeExclusive/StoreOrLoadPair (stateless DFS over the verif scheduling points); programs with 3 goroutines: a fixed budget of random schedules (sampling, not exhaustive); oracle: pointer identity per (object,type), one exclusive decoder run, no deadlock/panic/unlocked critical section, later sequential Decode returns the same pointer, every successful call returns a value made by a decode function of its own type for its own object; every schedule replayed in the extracted Coq model. Pool oracle (deterministic): see coverage.pool",
 		map[string]any{
 			"schedules_explored":              x.nsched,
 			"programs_enumerated_exhaustively": complete,
@@ -832,5 +865,6 @@ func main() {
 			"sample_budget_per_program":        budget,
 			"schedules_per_program":            x.perProg,
 			"oracle_failures_by_signature":     x.failed,
+			"pool":                             pool,
 		})
 }
